@@ -49,7 +49,8 @@ Lemma listen_unsynced s ep s' :
 Proof.
   intros Hwf Hcap H. unfold tcp_listen in H. des_all H; inversion H; subst s'; clear H;
     [left; reflexivity|].
-  right. apply (unsynced_state_change (tcp_reset s)); [| |apply reset_unsynced; assumption].
+  right. pose proof (reset_unsynced s Hwf Hcap) as Hr. revert Hr. generalize (tcp_reset s). intros s0 Hr.
+  apply (unsynced_state_change s0); [| |exact Hr].
   - unfold rxv_eq. rproj. repeat split; reflexivity.
   - rproj. exact I.
 Qed.
@@ -60,7 +61,8 @@ Lemma connect_unsynced cx s ra rp ep s' :
 Proof.
   intros Hwf Hcap H. unfold tcp_connect in H. des_all H.
   all: cbn [obind] in H; inversion H; subst s'; clear H.
-  all: (apply (unsynced_state_change (tcp_reset s)); [| |apply reset_unsynced; assumption];
+  all: pose proof (reset_unsynced s Hwf Hcap) as Hr; revert Hr; generalize (tcp_reset s); intros s0 Hr.
+  all: (apply (unsynced_state_change s0); [| |exact Hr];
         [unfold rxv_eq; rproj; repeat split; reflexivity | rproj; exact I]).
 Qed.
 
